@@ -247,8 +247,9 @@ func (w *World) LoadLastGERBlock(ctx context.Context, s *Stores, b *Block) error
 
 // CheckL1 compares the L1-side stores' own answers with the world's reference trees (every exit
 // root by index, every L1 info leaf and root, every verified local exit root). A difference is
-// either a harness bug or a C01/C11 finding; the scenario must not be used then.
-func (w *World) CheckL1(ctx context.Context, s *Stores) error {
+// either a harness bug or a C01/C11 finding; the scenario must not be used then. withRollupTree=false
+// leaves out the rollup exit tree lookups (for C12, whose own oracle is about exactly those).
+func (w *World) CheckL1(ctx context.Context, s *Stores, withRollupTree bool) error {
 	if s.L1Bridge != nil {
 		for i := range w.L1Deps {
 			r, err := s.L1Bridge.GetExitRootByIndex(ctx, uint32(i))
@@ -268,6 +269,9 @@ func (w *World) CheckL1(ctx context.Context, s *Stores) error {
 			r, err := s.L1Info.GetL1InfoTreeRootByIndex(ctx, l.Index)
 			if err != nil || r.Hash != l.RootAfter {
 				return fmt.Errorf("L1 info store: root after leaf %d: got %v (%v), reference %v", l.Index, r.Hash, err, l.RootAfter)
+			}
+			if !withRollupTree {
+				continue
 			}
 			if l.BVer > 0 {
 				ler, err := s.L1Info.GetLocalExitRoot(ctx, NetB, l.RER)
